@@ -81,6 +81,18 @@ pub fn payload_field(max: usize) -> impl Strategy<Value = (Vec<u8>, u8)> {
         3 => (alphabet_string(max.min(90)), 0u8..6),
         1 => (alphabet_string(max), 0u8..6),
         2 => (proptest::collection::vec(field_byte(), 1..=max.min(60)), 0u8..6),
+        // a decodable message with one foreign byte at its end or inside (a blank or CR left by a logger, a
+        // lower-case slip): the raw payload is reported as it is, decoding it fails
+        1 => (message_chars(LenMode::Standard), prop::sample::select(vec![b' ', b'\r', b'\t', b'X', b'x', b'_', 0x80u8, 0u8]), any::<u16>(), prop::bool::weighted(0.7)).prop_map(move |((mut c, f), junk, at, at_end)| {
+            c.truncate(max.saturating_sub(1).max(1));
+            if at_end {
+                c.push(junk);
+            } else {
+                let i = (at as usize * c.len()) >> 16;
+                c[i] = junk;
+            }
+            (c, f)
+        }),
     ]
 }
 
@@ -94,6 +106,8 @@ pub fn tag_block() -> impl Strategy<Value = Option<Vec<u8>>> {
         1 => Just(Some(b"c:1241544035*53".to_vec())),
         1 => Just(Some(b"g:1-2-73874,n:157036".to_vec())),
         1 => proptest::collection::vec(any::<u8>().prop_map(|b| if b == b'\\' || b == b'\n' { b'y' } else { b }), 1..30).prop_map(Some),
+        // a long one: the line as a whole gets longer than any payload capacity (384) although the sentence is ordinary
+        1 => (300usize..700, any::<u8>()).prop_map(|(n, x)| Some((0..n).map(|i| b"s:station-17,c:1696241893,t:abcdefgh,"[(i + x as usize) % 37]).collect())),
     ]
 }
 
@@ -109,6 +123,8 @@ pub fn tail() -> impl Strategy<Value = Vec<u8>> {
         1 => Just(b"\r\n".to_vec()),
         1 => Just(b" ".to_vec()),
         1 => proptest::collection::vec(any::<u8>().prop_map(|b| if b.is_ascii_hexdigit() || b == b'\n' { b'z' } else { b }), 1..8),
+        // "bytes after the checksum are ignored" - however many
+        1 => (300usize..700, any::<u8>()).prop_map(|(n, x)| std::iter::once(b' ').chain((0..n).map(|i| b" ;trailing log text 2023-10-02T10:18:13Z rssi=-97"[(i + x as usize) % 49])).collect()),
     ]
 }
 
@@ -267,6 +283,59 @@ pub fn any_fragment() -> impl Strategy<Value = Ev> {
         let k = 1 + ((ksel as u32 * n as u32) >> 16) as u8;
         Ev::Frag { n, k, id, payload, fill: 0, decode }
     })
+}
+
+/// A long group (10..=40 fragments, two-digit fragment numbers) played in order up to some point, then one to
+/// three probe lines whose number and id are *related* to the position reached (the next number shifted by
+/// +-1, +-9, +-10, +-11, +-16, +-17; the id shifted by 0, +-1 or dropped) - where a reassembly state packed
+/// into one integer, a bitmap, or a decimal cursor aliases - and then, possibly, the rest of the group.
+pub fn long_group_events() -> impl Strategy<Value = Vec<Ev>> {
+    (
+        10u8..=40,
+        seq_id(),
+        any::<u16>(),
+        proptest::collection::vec(
+            (
+                prop::sample::select(vec![-17i32, -16, -11, -10, -9, -2, -1, 0, 1, 2, 9, 10, 11, 16, 17]),
+                prop::sample::select(vec![-1i32, 0, 0, 0, 1, 99]),
+                any::<bool>(),
+            ),
+            1..4,
+        ),
+        any::<bool>(),
+        any::<u8>(),
+    )
+        .prop_map(|(n, id, jsel, probes, go_on, salt)| {
+            let tok = |k: u32| {
+                let a = ALPHABET[((k as usize) * 7 + salt as usize) & 63];
+                let b = ALPHABET[((k as usize) * 13 + 5 + (salt as usize >> 2)) & 63];
+                vec![a, b]
+            };
+            let j = 1 + ((jsel as u32 * n as u32) >> 16) as u8; // fragments 1..=j are played
+            let mut evs: Vec<Ev> = (1..=j).map(|k| Ev::Frag { n, k, id, payload: tok(k as u32), fill: 0, decode: false }).collect();
+            let mut delivered = j == n;
+            for (dk, did, closing) in probes {
+                let k2 = (j as i32 + 1 + dk).clamp(1, 255) as u8;
+                let id2 = match (id, did) {
+                    (_, 99) => None,
+                    (Some(i), d) => Some((i as i32 + d).clamp(0, 255) as u8),
+                    (None, 0) => None,
+                    (None, d) => Some(d.unsigned_abs() as u8),
+                };
+                // validly numbered: the probe either claims the group's own count or closes a group of its own size
+                let n2 = if closing || k2 > n { k2.max(2) } else { n };
+                if k2 == j + 1 && id2 == id && n2 == n {
+                    delivered = delivered || k2 == n;
+                }
+                evs.push(Ev::Frag { n: n2, k: k2, id: id2, payload: tok(100 + k2 as u32), fill: 0, decode: false });
+            }
+            if go_on && !delivered {
+                for k in (j + 1)..=n {
+                    evs.push(Ev::Frag { n, k, id, payload: tok(k as u32), fill: 0, decode: false });
+                }
+            }
+            evs
+        })
 }
 
 /// Adversarial histories for C06 / C17 / C01: groups with loss, duplication, reordering,
